@@ -71,7 +71,9 @@ def make_resolvers():
 
     def few(root, ctx):
         return 1
-    return {"exact": exact, "default": default, "kwargs": kwargs, "missing": missing, "few": few}
+    def varargs(root, ctx, info, *args):
+        return 1
+    return {"exact": exact, "default": default, "kwargs": kwargs, "missing": missing, "few": few, "varargs": varargs}
 
 
 def _memo_worker(hists):
